@@ -51,3 +51,111 @@ pub(crate) fn item(target: Id, key: [u8; 32], seq: i64, value: Box<[u8]>, signat
 pub(crate) fn salt_of(i: &MutableItem) -> &Option<Box<[u8]>> {
     &i.salt
 }
+
+// ---------------------------------------------------------------------------------------------
+// Obligations: the REAL MutableItem::from_dht_message satisfies the contract assumed above.
+// Dependency boundary (layer A, replaced by ghost verdicts here):
+//   VerifyingKey::from_bytes        (curve arithmetic: is `k` a point)        -> KEY_IS_POINT
+//   <VerifyingKey as Verifier>::verify (ed25519)                              -> SIG_OK (+ records the message)
+//   MutableItem::target_from_key    (SHA-1 of k || salt)                      -> H_RESULT (an arbitrary id)
+//   encode_signable                 (bencode text of seq/v/salt, uses format!) -> records (seq, v, salt) identity
+// ---------------------------------------------------------------------------------------------
+static mut KEY_IS_POINT: bool = true;
+static mut H_RESULT: [u8; 20] = [0; 20];
+static mut H_KEY0: u8 = 0;
+static mut H_SALT_LEN: usize = 0;
+static mut SIGNABLE_SEQ: i64 = 0;
+static mut SIGNABLE_VLEN: usize = 0;
+static mut SIGNABLE_SALT_LEN: usize = 0;
+static mut VERIFY_CALLS: u32 = 0;
+static mut VERIFY_SIG0: u8 = 0;
+static mut VERIFY_MSG0: u8 = 0;
+static mut VERIFY_KEY0: u8 = 0;
+
+/// stand-in for VerifyingKey::from_bytes (point decompression). The struct's fields are private to
+/// ed25519-dalek, so the key bytes are written over those of a default key through the pointer
+/// `as_bytes()` hands out; the obligations below check that `as_bytes()/to_bytes()` then return them.
+fn stub_vk_from_bytes(bytes: &[u8; 32]) -> Result<VerifyingKey, ed25519_dalek::SignatureError> {
+    if unsafe { KEY_IS_POINT } {
+        let vk = VerifyingKey::default();
+        let p = vk.as_bytes().as_ptr() as usize as *mut u8;
+        unsafe { core::ptr::copy_nonoverlapping(bytes.as_ptr(), p, 32) };
+        Ok(vk)
+    } else {
+        Err(ed25519_dalek::SignatureError::new())
+    }
+}
+
+fn stub_verify(k: &VerifyingKey, message: &[u8], signature: &Signature) -> Result<(), ed25519_dalek::SignatureError> {
+    unsafe {
+        VERIFY_CALLS += 1;
+        VERIFY_SIG0 = signature.to_bytes()[0];
+        VERIFY_MSG0 = if message.is_empty() { 0 } else { message[0] };
+        VERIFY_KEY0 = k.as_bytes()[0];
+        if SIG_OK { Ok(()) } else { Err(ed25519_dalek::SignatureError::new()) }
+    }
+}
+
+fn stub_target_from_key(public_key: &[u8; 32], salt: Option<&[u8]>) -> Id {
+    unsafe {
+        H_KEY0 = public_key[0];
+        H_SALT_LEN = match salt { Some(s) => s.len() + 1, None => 0 };
+        Id::from(H_RESULT)
+    }
+}
+
+fn stub_encode_signable(seq: i64, value: &[u8], salt: Option<&[u8]>) -> Box<[u8]> {
+    unsafe {
+        SIGNABLE_SEQ = seq;
+        SIGNABLE_VLEN = value.len();
+        SIGNABLE_SALT_LEN = match salt { Some(s) => s.len() + 1, None => 0 };
+    }
+    Box::new([0xE5])
+}
+
+#[kani::proof]
+#[kani::unwind(70)]
+#[kani::stub(ed25519_dalek::VerifyingKey::from_bytes, stub_vk_from_bytes)]
+#[kani::stub(<ed25519_dalek::VerifyingKey as ed25519_dalek::Verifier<ed25519_dalek::Signature>>::verify, stub_verify)]
+#[kani::stub(MutableItem::target_from_key, stub_target_from_key)]
+#[kani::stub(encode_signable, stub_encode_signable)]
+fn c03_from_dht_message_ok_iff_key_target_and_signature_check_out() {
+    let key_len: usize = kani::any();
+    kani::assume(key_len == 31 || key_len == 32 || key_len == 33);
+    let sig_len: usize = kani::any();
+    kani::assume(sig_len == 63 || sig_len == 64 || sig_len == 65);
+    let kbuf: [u8; 33] = kani::any();
+    let sbuf: [u8; 65] = kani::any();
+    let target: [u8; 20] = kani::any();
+    let h: [u8; 20] = kani::any();
+    let point: bool = kani::any();
+    let sig_ok: bool = kani::any();
+    unsafe {
+        KEY_IS_POINT = point;
+        SIG_OK = sig_ok;
+        H_RESULT = h;
+    }
+    let seq: i64 = kani::any();
+    let v: Box<[u8]> = if kani::any() { Box::new([kani::any()]) } else { Box::new([]) };
+    let vlen = v.len();
+    let salt: Option<Box<[u8]>> = if kani::any() { Some(Box::new([kani::any(), 2])) } else { None };
+    let salt_tag = match &salt { Some(s) => s.len() + 1, None => 0 };
+    let r = MutableItem::from_dht_message(Id::from(target), &kbuf[..key_len], v, seq, &sbuf[..sig_len], salt);
+    let want_ok = key_len == 32 && point && h == target && sig_len == 64 && sig_ok;
+    assert!(r.is_ok() == want_ok, "C03/C02: from_dht_message is Ok <=> 32-byte key that is a curve point, target == H(k || salt), 64-byte signature that verifies");
+    if let Ok(item) = &r {
+        // the verdicts were obtained for THIS key, salt, seq, value and signature
+        assert!(unsafe { H_KEY0 } == kbuf[0] && unsafe { H_SALT_LEN } == salt_tag, "target derived from the request's key and salt");
+        assert!(unsafe { VERIFY_CALLS } == 1 && unsafe { VERIFY_SIG0 } == sbuf[0] && unsafe { VERIFY_KEY0 } == kbuf[0] && unsafe { VERIFY_MSG0 } == 0xE5,
+            "signature verified under the request's key over the signable encoding");
+        assert!(unsafe { SIGNABLE_SEQ } == seq && unsafe { SIGNABLE_VLEN } == vlen && unsafe { SIGNABLE_SALT_LEN } == salt_tag,
+            "the signable encoding was built from the request's seq, value and salt");
+        // the item carries the arguments unchanged
+        assert!(item.target.as_bytes() == &target && item.key[..] == kbuf[..32] && item.seq == seq && item.signature[..] == sbuf[..64]
+            && item.value.len() == vlen && (match &item.salt { Some(s) => s.len() + 1, None => 0 }) == salt_tag);
+    }
+    kani::cover!(r.is_ok());
+    kani::cover!(!r.is_ok() && key_len == 32 && point && sig_len == 64 && sig_ok, "refused only because target != H(k || salt)");
+    kani::cover!(!r.is_ok() && key_len == 32 && point && h == target && sig_len == 64, "refused only because the signature does not verify");
+    core::mem::forget(r);
+}
